@@ -100,8 +100,8 @@ CHECKS = {
    note="Trusted: refmodel::wire for frame sizes, fabric + paused clock.",
    design="§4 C15"),
  "C16": dict(
-   engine="proptest+libfuzzer",
-   technique="property-based testing: generated route tables (route/add_rpc_service/route_layer/nested merge) and probe strings against a string-comparison reference matcher with layer bookkeeping; invocation counters as oracle",
+   engine="proptest+simnet+libfuzzer",
+   technique="property-based testing: generated route tables (route/add_rpc_service/route_layer/nested merge) and probe strings against a string-comparison reference matcher with layer bookkeeping; invocation counters as oracle; the same question asked over the simulated network with the generated rpc servers mounted (odd route strings sent by a peer)",
    text="Generated tables and route strings; the oracle is an independent exact/prefix matcher plus per-service invocation counters and per-layer tags. Exploration of an unbounded table/string space.",
    note="Trusted: refmodel::routes (written from the statement). Patterns limited to the kinds the statement names; ':param' patterns not generated.",
    design="§4 C16"),
@@ -121,7 +121,7 @@ CHECKS = {
    engine="proptest (real clock)",
    technique="property-based testing: generated request scripts in real time, GCRA envelope invariant over every window of bracketed admissions, metamorphic hint probe (wait the hinted time => admitted)",
    text="Generated quotas and scripts run in real time because governor's clock is not injectable; admissions are bracketed on one monotonic clock so the envelope check is conservative. Exploration; not a pure function of the seed.",
-   note="Trusted: std monotonic clock, tokio timers. Scheduling noise only widens brackets (fewer detections, no false alarms); a zero wait-nanos hint is tolerated only as a rare clock race.",
+   note="Trusted: std monotonic clock, tokio timers. Scheduling noise only widens brackets (fewer detections, no false alarms); every refusal must carry wait-nanos >= 1 (F7, fixed in /repo 1ab4be0; the hint-race part hammers sub-millisecond quotas). The two-peers-blocked-at-once oracle compares admission ORDER, not durations.",
    design="§4 C19"),
  "C20": dict(
    engine="proptest",
